@@ -323,7 +323,7 @@ def run(ctx):
             args.append((m, n, lo, min(total, lo + step)))
     rep.merge(fw.run_shards(ctx, "props.c18", "shard_exhaustive", args))
     rep.extra["exhaustive_small_matrices"] = rep.evaluations
-    per = 60 if ctx.quick else 1500
+    per = 60 if ctx.quick else 10000
     hargs = [(ctx.seed * 1000 + i, per, ctx.deadline) for i in range(16)]
     rep.merge(fw.run_shards(ctx, "props.c18", "shard_hyp", hargs))
     rep.extra["exhaustive"] = False
